@@ -463,6 +463,9 @@ ASSUMPTIONS = [
     "'restart with the true applied index' is not exercised",
     "replica ids are not reused: a replica whose removal was proposed is never added again (re-adding a still running, "
     "removed voter as learner leaves it unable to restore the leader's snapshot - liveness only, outside C01-C03)",
+    "the leader is never asked to remove itself (the driver stops a replica when it applies its own removal, as the "
+    "data node does; a leader that stops before the others learn the commit index can leave a group that cannot elect - "
+    "observed once with a lagging promoted learner, liveness only)",
     "single-voter configurations are kept out of the general corpus (known finding "
     "raft-single-voter-commit-before-persist) and exercised by a dedicated isolate stage",
     "'eventually applied by every live replica' is decided in logical time: after heal, at most 50 election timeouts of "
@@ -492,13 +495,13 @@ def run_check(ctx, prop):
             model["runs"] += run_families(ctx, full, workers=6, timeout=1200, par=2, suffix="-full")
 
     def do_traces():
-        ntr = 14 if quick else 120
+        ntr = 14 if quick else 60
         confs = [("t%02d" % k, gen_conf(rnd, prop, k, quick), ctx.seed * 1000 + k) for k in range(ntr)]
         conformance(ctx, zr, prop, confs, stats, samples, par=6 if quick else 8)
         # TLC-generated behaviours steer the driver, the seeded scheduler finishes the run
         try:
             cfgsim = {"C01": "MC_ZRaft_Election_11.cfg", "C02": "MC_ZRaft_Log.cfg", "C03": "MC_ZRaft_Crash.cfg"}[prop]
-            scripts, _ = tlc_scripts(ctx, cfgsim, 4 if quick else 40, 60, ctx.seed,
+            scripts, _ = tlc_scripts(ctx, cfgsim, 4 if quick else 20, 60, ctx.seed,
                                      overrides={"MaxTerm": "6", "MaxLog": "6", "MaxElect": "6", "MaxMsgs": "12",
                                                 "MaxProp": "4", "MaxCrash": "3"})
             sc = []
